@@ -304,7 +304,9 @@ def op_mpo(w, s):
     w.put(s["out"], "mpo", mpo, ref, s["mid"], {"terms": s["terms"], "offset": offset, "symbolic": True})
     w.check_value(s["out"], {"C01"}, "C01.mpo.dense", what=f"Mpo(algo={s.get('algo', 'qr')})", extra_scale=float(sum(abs(t.factor) for t in terms)) + abs(offset))
     w.xdigest.add("mpo", [np.asarray(mpo[i].array) for i in range(len(mpo))][0].shape, *[np.asarray(mpo[i].array) for i in range(len(mpo))])
-    if np.abs(ref).max() > 0 and np.allclose(ref, ref.conj().T) and not np.allclose(dense.dense_of(mpo), dense.dense_of(mpo).conj().T, atol=1e-9 * np.abs(ref).max()):
+    rmax = float(np.abs(ref).max())
+    dm = dense.dense_of(mpo)
+    if rmax > 0 and float(np.abs(ref - ref.conj().T).max()) <= 1e-13 * rmax and float(np.abs(dm - dm.conj().T).max()) > 1e-9 * rmax:
         raise V({"C01"}, "C01.mpo.hermiticity", "Hermitian term list gave a non-Hermitian MPO")
     return "done"
 
@@ -530,6 +532,43 @@ def op_apply(w, s):
         if not np.all(np.asarray(res.qntot) == want):
             raise V({"C06", "C03"}, "C06.apply.qntot", f"apply: result total charge {np.asarray(res.qntot).tolist()} != {want.tolist()}")
     deferred(w, s["out"], scale)
+    return "done"
+
+
+@op("contract")
+def op_contract(w, s):
+    """Mpo.contract(state, algo): compressed operator application; documented not to overwrite its arguments (C13 monitor)."""
+    a, b = s["a"], s["b"]
+    if not w.live_ok(a, b):
+        return "skipped"
+    ea, eb = w.h[a], w.h[b]
+    if ea.kind != "mpo" or eb.kind not in ("mps", "mpdm") or ea.mid != eb.mid or len(eb.obj) < 2:
+        return "skipped"
+    if not (sweep_ready(eb.obj) and sweep_ready(ea.obj) and nonzero(ea) and nonzero(eb)):
+        return "skipped"
+    ref = ea.shadow @ eb.shadow
+    scale = float(np.linalg.norm(ea.shadow.ravel()) * np.linalg.norm(eb.shadow.ravel()))
+    if float(np.linalg.norm(ref.ravel())) < 1e-8 * scale:
+        return "skipped"
+    algo = s["algo"]
+    cap = max(exact_bond_cap(w.pd(ea.mid, eb.kind)))
+    eb.obj.compress_config = CompressConfig(CompressCriteria.fixed, max_bonddim=int(s.get("m") or cap))
+    eb.obj.compress_config.vguess_m = tuple(s.get("vguess", (5, 5)))
+    w.cur_op = "contract:" + algo
+    try:
+        res = ea.obj.contract(eb.obj, algo=algo)
+    except AssertionError:
+        # undocumented internal preconditions of the variational path (gauge of the guess): counted, not judged
+        w.stats.probes["contract_refused:" + algo] += 1
+        return "skipped"
+    got = dense.dense_of(res)
+    w.put(s["out"], eb.kind, res, got, ea.mid)
+    if algo == "svd" and (s.get("m") is None or s["m"] >= cap):
+        e_ = float(np.linalg.norm((got - ref).ravel()))
+        w.stats.ratio("C03.contract.dense", e_, 1e-9 * scale)
+        if e_ > 1e-9 * scale:
+            raise V({"C03"}, "C03.contract.dense", f"contract(algo=svd) with a sufficient bond limit differs from operator times state by {e_:.3e} (scale {scale:.3e})")
+    w.stats.probes["contract:" + algo] += 1
     return "done"
 
 
@@ -968,6 +1007,38 @@ def op_alias_mutate(w, s):
     return "done"
 
 
+@op("regauge")
+def op_regauge(w, s):
+    """Another holder changes the gauge of one bond through the public item interface: A_k -> A_k G, A_{k+1} -> G^-1 A_{k+1} with a
+    well-conditioned G that is block diagonal in the bond labels.  The represented value is unchanged, the canonical form is lost,
+    bond dimensions stay (no redundancy)."""
+    if not w.live_ok(s["a"]):
+        return "skipped"
+    e = w.h[s["a"]]
+    obj = e.obj
+    n = len(obj)
+    if n < 2 or not nonzero(e):
+        return "skipped"
+    k = s["bond"] % (n - 1) + 1          # bond between site k-1 and site k
+    a, b = np.asarray(obj[k - 1].array), np.asarray(obj[k].array)
+    m = a.shape[-1]
+    rs = np.random.RandomState(s["gseed"] % (2 ** 31))
+    g = np.eye(m) + 0.3 * (rs.rand(m, m) - 0.5)
+    if obj.is_complex:
+        g = g + 0.3j * (rs.rand(m, m) - 0.5)
+    if obj.qn is not None:
+        lab = np.asarray(obj.qn[k]).reshape(m, -1)
+        same = np.all(lab[:, None, :] == lab[None, :, :], axis=-1)
+        g = np.where(same, g, 0.0)
+    ginv = np.linalg.inv(g)
+    w.changed.add(s["a"])
+    obj[k - 1] = np.tensordot(a, g, axes=(-1, 0))
+    obj[k] = np.tensordot(ginv, b, axes=(1, 0))
+    w.check_value(s["a"], {"C13", "C03"}, "C03.regauge.model", what="bond gauge changed through the item interface")
+    w.stats.probes["regauge"] += 1
+    return "done"
+
+
 @op("spill")
 def op_spill(w, s):
     """Turn on per-site spill-to-disk for one object (knob): every later write of a site tensor goes to a file."""
@@ -1023,11 +1094,13 @@ def p_mpo(w, rnd):
     elif rnd.random() < 0.7:
         charge = [rnd.choice([-1, 1])] + [0] * (spec["qn_size"] - 1)
         rnd.shuffle(charge)
-    terms = gm.gen_terms(rnd, spec["sites"], spec["qn_size"], 1, 5, charge=charge) if charge is not None else None
+    # "units" knob: the same operator written in other units (cm^-1, Hz, ...) must be represented equally well
+    scale = 10.0 ** rnd.choice([-6, -3, 3, 5, 7, 9]) if rnd.random() < w.knobs.get("units_prob", 0.0) else 1.0
+    terms = gm.gen_terms(rnd, spec["sites"], spec["qn_size"], 1, 5, charge=charge, scale=scale) if charge is not None else None
     if not terms:
         if charge is None:
             # arbitrary-charge terms only make sense one at a time (a sum of terms of different charge has no total charge)
-            t = gm.gen_term(rnd, spec["sites"], spec["qn_size"])
+            t = gm.gen_term(rnd, spec["sites"], spec["qn_size"], scale=scale)
             terms = [t]
         else:
             return None
@@ -1169,6 +1242,19 @@ def p_apply(w, rnd):
     return s
 
 
+@prop("contract")
+def p_contract(w, rnd):
+    ops = w.handles("mpo", pred=lambda e: nonzero(e) and sweep_ready(e.obj))
+    rnd.shuffle(ops)
+    for a in ops:
+        t = w.handles(("mps", "mpdm"), w.h[a].mid, pred=lambda e: nonzero(e) and len(e.obj) >= 2 and sweep_ready(e.obj)
+                      and max(e.obj.bond_dims) * max(w.h[a].obj.bond_dims) <= 200)
+        if t:
+            return {"op": "contract", "a": a, "b": rnd.choice(t), "algo": rnd.choice(["svd", "variational", "variational"]),
+                    "m": rnd.choice([None, None, rnd.randint(1, 6)]), "vguess": [rnd.choice([1, 2, 3, 5]), rnd.choice([2, 5])], "out": w.new_handle()}
+    return None
+
+
 @prop("canonicalise")
 def p_canonicalise(w, rnd):
     hs = w.handles(pred=lambda e: nonzero(e) and sweep_ready(e.obj))
@@ -1288,6 +1374,14 @@ def p_alias_mutate(w, rnd):
     if not hs:
         return None
     return {"op": "alias_mutate", "a": rnd.choice(hs), "site": rnd.randrange(8), "factor": rnd.choice([2.0, -1.0, 0.5])}
+
+
+@prop("regauge")
+def p_regauge(w, rnd):
+    hs = [x for x in w.handles(("mps", "mpdm")) if len(w.h[x].obj) >= 2 and nonzero(w.h[x])]
+    if not hs:
+        return None
+    return {"op": "regauge", "a": rnd.choice(hs), "bond": rnd.randrange(8), "gseed": rnd.randrange(2 ** 31)}
 
 
 @prop("spill")
